@@ -23,6 +23,7 @@
 
 #include <array>
 #include <atomic>
+#include <cctype>
 #include <csignal>
 #include <sys/mman.h>
 #include <sys/wait.h>
@@ -418,18 +419,45 @@ static void run_case(const ICtx &ctx, long caseid, int reps, const std::vector<s
     set_phase(4);
 }
 
-// run `body` in a forked child under a time limit; returns the wait status (0 = clean exit)
-template <class F> static int in_child(F body) {
+// light structural check of one ndjson line produced by a child: printable ASCII only, one line,
+// brackets balanced outside strings.  A child whose heap was corrupted by racing library code can
+// produce garbage; that must not reach the trace as a broken line.
+static bool well_formed_line(const std::string &t) {
+    if (t.size() < 3 || t[0] != '{' || t[t.size() - 1] != '\n' || t[t.size() - 2] != '}') return false;
+    std::string st; bool in_str = false;
+    for (size_t i = 0; i + 1 < t.size(); ++i) {
+        const unsigned char c = (unsigned char)t[i];
+        if (c < 0x20 || c >= 0x7f) return false;
+        if (in_str) { if (c == '\\') { ++i; if (i + 1 >= t.size()) return false; } else if (c == '"') in_str = false; continue; }
+        if (c == '"') in_str = true;
+        else if (c == '{' || c == '[') st.push_back((char)c);
+        else if (c == '}' || c == ']') { if (st.empty() || st.back() != (c == '}' ? '{' : '[')) return false; st.pop_back(); if (st.empty() && i + 2 != t.size()) return false; }
+        else if (!(std::isalnum(c) || c == '-' || c == '.' || c == ',' || c == ':' || c == '+')) return false;
+    }
+    return st.empty() && !in_str;
+}
+
+// run `body` in a forked child under a time limit, its stdout captured through a pipe;
+// returns the wait status (0 = clean exit) and the captured text
+template <class F> static int in_child(F body, std::string &captured) {
     fflush(stdout); fflush(stderr);
+    int fd[2];
+    if (pipe(fd) != 0) { perror("pipe"); exit(3); }
     pid_t pid = fork();
     if (pid < 0) { perror("fork"); exit(3); }
     if (pid == 0) {
+        close(fd[0]); dup2(fd[1], 1); close(fd[1]);
         const char *lim = getenv("READERS_CASE_TIMEOUT");
         alarm(lim ? (unsigned)atoi(lim) : 900u);
         body();
         fflush(stdout); fflush(stderr);
         _exit(0);
     }
+    close(fd[1]);
+    captured.clear();
+    char buf[65536]; ssize_t n;
+    while ((n = read(fd[0], buf, sizeof buf)) > 0) captured.append(buf, (size_t)n);
+    close(fd[0]);
     int st = 0; waitpid(pid, &st, 0);
     if (WIFEXITED(st)) return WEXITSTATUS(st);
     return 1000 + (WIFSIGNALED(st) ? WTERMSIG(st) : 0);
@@ -476,15 +504,19 @@ int main(int argc, char **argv) {
                 j.end_arr(); j.end_obj(); vx::emit(j);
             }
             *g_phase = 0;
-            const int st = in_child([&] { run_case(*ctx, caseid, reps, progs); });
-            if (st != 0 || *g_phase != 4) {
-                // the case died: in which phase, and do the same programs complete on one thread?
+            std::string text, ignored;
+            const int st = in_child([&] { run_case(*ctx, caseid, reps, progs); }, text);
+            const bool corrupt = st == 0 && *g_phase == 4 && !well_formed_line(text);
+            if (st == 0 && *g_phase == 4 && !corrupt) {
+                fwrite(text.data(), 1, text.size(), stdout); fflush(stdout);
+            } else {
+                // the case died (or logged garbage): in which phase, and do the same programs complete on one thread?
                 const int phase = *g_phase;
                 int st2 = -1;
-                if (phase >= 2) st2 = in_child([&] { run_sequential_replay(*ctx, reps, progs); });
+                if (phase >= 2) st2 = in_child([&] { run_sequential_replay(*ctx, reps, progs); }, ignored);
                 Json j; j.begin_obj(); j.kv("e", "crash"); j.kv("case", (long long)caseid); j.kv("mesh", ctx->name);
                 j.kv("threads", (long long)T); j.kv("reps", (long long)reps); j.kv("phase", (long long)phase);
-                j.kv("status", (long long)st); j.kv("seq_replay_ok", st2 == 0);
+                j.kv("status", (long long)st); j.kv("corrupt_output", corrupt); j.kv("seq_replay_ok", st2 == 0);
                 j.end_obj(); vx::emit(j);
             }
             ++nruns;
